@@ -630,6 +630,57 @@ func c04(c *Ctx) {
 			c.R.Bad(load.FuncName(f)+": "+p.What, c.pos(p.Instr.Pos()), p.What)
 		}
 	}
+
+	c.R.Rule("R4.7", "observed connection details are read from the secret the resource's own reference names", 1,
+		"the observed state handed to the functions would carry the connection details of some other secret (same name, another namespace)")
+	if fc := c.method(pkgComposite, "SecretConnectionDetailsFetcher", "FetchConnection"); fc != nil {
+		gets := calls(fc, clientGet)
+		if len(gets) != 1 {
+			c.R.Unknown(load.FuncName(fc)+": Get", c.pos(fc.Pos()), "expected one client.Get of the secret")
+		} else {
+			fromRef := func(v ssa.Value, field string) bool {
+				// a read of sref.<field>, sref = o.GetWriteConnectionSecretToReference()
+				r := flow.Root(v)
+				for _, x := range []ssa.Value{v, r} {
+					switch x := x.(type) {
+					case *ssa.UnOp:
+						if fa, ok := x.X.(*ssa.FieldAddr); ok && fieldName(fa.X.Type(), fa.Field) == field && hasSuffixCall(flow.Root(fa.X), ".GetWriteConnectionSecretToReference") {
+							return true
+						}
+					case *ssa.Field:
+						if fieldName(x.X.Type(), x.Field) == field && hasSuffixCall(flow.Root(x.X), ".GetWriteConnectionSecretToReference") {
+							return true
+						}
+					}
+				}
+				return false
+			}
+			key := cfgx.CallArgs(gets[0])[1]
+			var alloc *ssa.Alloc
+			if ld, ok := key.(*ssa.UnOp); ok {
+				alloc, _ = ld.X.(*ssa.Alloc)
+			}
+			n, bad := 0, ""
+			if alloc != nil && alloc.Referrers() != nil {
+				for _, r := range *alloc.Referrers() {
+					fa, ok := r.(*ssa.FieldAddr)
+					if !ok || fa.Referrers() == nil {
+						continue
+					}
+					fld := fieldName(fa.X.Type(), fa.Field)
+					for _, u := range *fa.Referrers() {
+						if st, ok := u.(*ssa.Store); ok && st.Addr == ssa.Value(fa) {
+							n++
+							if !fromRef(st.Val, fld) {
+								bad = c.pos(st.Pos())
+							}
+						}
+					}
+				}
+			}
+			c.R.Check(n >= 2 && bad == "", site(gets[0])+" key", c.pos(gets[0].Pos()), "namespace and name of the secret read are those of the resource's writeConnectionSecretToRef", "the key of the secret read is not (only) the namespace and name of the resource's writeConnectionSecretToRef (see "+bad+")")
+		}
+	}
 }
 
 func valueOf(st *ssa.Store) ssa.Value {
@@ -885,4 +936,16 @@ func enumConsts(p *types.Package, t types.Type) []string {
 	}
 	sort.Strings(out)
 	return out
+}
+
+// fieldName names field i of the struct type t (or of the struct *t points to).
+func fieldName(t types.Type, i int) string {
+	if p, ok := t.Underlying().(*types.Pointer); ok {
+		t = p.Elem()
+	}
+	st, ok := t.Underlying().(*types.Struct)
+	if !ok || i >= st.NumFields() {
+		return ""
+	}
+	return st.Field(i).Name()
 }
